@@ -38,13 +38,29 @@ func (c *deferInfoCollector) EnterDocument(operation, definition *ast.Document) 
 }
 
 func (c *deferInfoCollector) EnterSelectionSet(ref int) {
+	owner := c.enclosingDeferID()
 	for _, selectionRef := range c.operation.SelectionSetFieldSelections(ref) {
 		fieldRef := c.operation.Selections[selectionRef].Ref
 		id, label, parentID, ok := c.operation.FieldDeferInfo(fieldRef)
 		if !ok {
 			continue
 		}
-		if _, seen := c.descriptors[id]; seen {
+		// Physical ancestry wins: a deferred field that sits inside an object owned by
+		// another defer can only be rendered (and its mount point only exists) after
+		// that owner was delivered, so the owner must be on the parent chain of the
+		// field's defer. Field merging can leave such a field with a parentDeferId that
+		// is still live but does not lead through the owner.
+		if owner != 0 && owner != id && !c.isAncestorOrSelf(owner, parentID) && !c.isAncestorOrSelf(id, owner) {
+			parentID = owner
+		}
+		if d, seen := c.descriptors[id]; seen {
+			// A deeper field of an already recorded defer: move the defer below the
+			// owner of this field when that only lengthens its parent chain (the
+			// mount path of the shallowest field is kept).
+			if parentID != d.ParentID && c.isAncestorOrSelf(d.ParentID, parentID) && !c.isAncestorOrSelf(id, parentID) {
+				d.ParentID = parentID
+				c.descriptors[id] = d
+			}
 			continue
 		}
 		c.descriptors[id] = resolve.DeferDescriptor{
@@ -54,6 +70,41 @@ func (c *deferInfoCollector) EnterSelectionSet(ref int) {
 			Path:     c.deferPath(),
 		}
 	}
+}
+
+// enclosingDeferID returns the defer id of the nearest enclosing field that
+// carries @__defer_internal (the owner of the object whose selection set is
+// being entered), or 0 when there is none.
+func (c *deferInfoCollector) enclosingDeferID() int {
+	for i := len(c.Walker.Ancestors) - 1; i >= 0; i-- {
+		ancestor := c.Walker.Ancestors[i]
+		if ancestor.Kind != ast.NodeKindField {
+			continue
+		}
+		if id, _, _, ok := c.operation.FieldDeferInfo(ancestor.Ref); ok {
+			return id
+		}
+	}
+	return 0
+}
+
+// isAncestorOrSelf reports whether defer a is b itself or on b's parent chain in
+// the descriptors recorded so far; 0 (not deferred) is an ancestor of everything.
+func (c *deferInfoCollector) isAncestorOrSelf(a, b int) bool {
+	if a == 0 {
+		return true
+	}
+	for i := 0; b != 0 && i <= len(c.descriptors); i++ {
+		if a == b {
+			return true
+		}
+		d, ok := c.descriptors[b]
+		if !ok {
+			return false
+		}
+		b = d.ParentID
+	}
+	return false
 }
 
 // deferPath returns the response path of the inline fragment for the defer
